@@ -66,6 +66,7 @@ type Slot struct {
 	Text   string   `json:"text"`             // laid out with Layout
 	Retext []string `json:"retext,omitempty"` // per glyph: replacement text ("" = keep)
 	Fill   *Fill    `json:"fill,omitempty"`   // instead of Text
+	Dress  *Dress   `json:"dress,omitempty"`  // per-glyph rise and advance adjustments (dressed.go)
 }
 
 // Step is one call: "L" = Layout of the slot, "E" = Encode and show.
@@ -103,6 +104,7 @@ func (c *Case) size() int {
 		if s.Fill != nil {
 			n += 20 + s.Fill.N
 		}
+		n += s.Dress.size()
 	}
 	return n
 }
@@ -311,6 +313,8 @@ type group struct {
 	fontName pdf.Name
 	strs     []pdf.String
 	chars    []font.Code
+	ops      []showOp // the show operators of the text object, in order (dressed.go)
+	pattern  []string // the Ts / Tj / TJ operators of the text object, in order
 }
 
 type result struct {
@@ -319,6 +323,7 @@ type result struct {
 	kerned        bool // some TJ adjustment was written
 	unusedFontErr bool // a font that showed no glyph could not be extracted
 	nShown        int
+	pattern       string // operator pattern of the text objects (Ts / Tj / TJ with the shape of the array)
 }
 
 func parseVersion(s string) (pdf.Version, error) {
@@ -401,6 +406,7 @@ func execute(c *Case) (res result) {
 					}
 				}
 			}
+			sl.Dress.apply(seq)
 			seqs[st.Slot] = seq
 		case "E":
 			seq := seqs[st.Slot]
@@ -542,9 +548,14 @@ func execute(c *Case) (res result) {
 			if len(args) > 0 {
 				curFont, _ = args[0].(pdf.Name)
 			}
+		case "Ts":
+			if g != nil {
+				g.pattern = append(g.pattern, "Ts")
+			}
 		case "Tj", "'":
 			if len(args) > 0 {
 				addStr(args[0])
+				g.noteShow(op, args[0])
 			}
 		case "\"":
 			if len(args) > 2 {
@@ -552,6 +563,7 @@ func execute(c *Case) (res result) {
 			}
 		case "TJ":
 			if len(args) > 0 {
+				g.noteShow(op, args[0])
 				if a, ok := args[0].(pdf.Array); ok {
 					for _, o := range a {
 						if _, isStr := o.(pdf.String); isStr {
@@ -574,6 +586,7 @@ func execute(c *Case) (res result) {
 	if err := rd.ProcessPage(pg); err != nil {
 		return result{outcome: "fail:content", fail: &failure{"content-read-error", short(err.Error())}}
 	}
+	res.pattern = patternOf(groups)
 	if len(groups) != len(showOrder) {
 		return result{outcome: "fail:groups", fail: &failure{"text-object-count", fmt.Sprintf("%d text objects written, %d read", len(showOrder), len(groups))}}
 	}
@@ -714,6 +727,10 @@ func judge(label string, F font.Layouter, want []shown, gr *group, wantRes pdf.N
 	}
 	gotBytes := catStrings(gr.strs)
 	if !bytes.Equal(wantBytes, gotBytes) {
+		if how := earlierOperatorWrong(gr, wantBytes); how != "" {
+			return &failure{"content-bytes:one-call-several-show-operators:" + how,
+				fmt.Sprintf("codes returned by Encode give <%x>, the %d show operators written by the one TextShowGlyphs call carry %s", wantBytes, len(gr.ops), gr.describeOps())}
+		}
 		return &failure{"content-bytes:" + cls, fmt.Sprintf("codes returned by Encode give <%x>, the content stream has <%x>", wantBytes, gotBytes)}
 	}
 
@@ -813,6 +830,9 @@ type collector struct {
 	r  *ev.Run
 	mu sync.Mutex
 	v  map[string]*viol
+
+	pmu      sync.Mutex
+	patterns map[string]int // dressed space: operator pattern -> documents
 }
 
 type viol struct {
@@ -839,6 +859,9 @@ func (cl *collector) one(c Case) {
 	}
 	if res.unusedFontErr {
 		r.Outcome("note:font-without-any-glyph-shown-is-not-extractable")
+	}
+	if c.Space == "dressed" && res.pattern != "" {
+		cl.notePattern(res.pattern)
 	}
 	if res.fail == nil {
 		return
@@ -912,12 +935,13 @@ func Run(tier string) int {
 	debug.SetGCPercent(400)
 	r := ev.New("C14", tier, "exploration", budget)
 	cl := &collector{r: r, v: map[string]*viol{}}
-	r.Rule("every case is one single-page document written with the library (fresh font instances, Layout, builder.TextShowGlyphs -> Encode, ResourceManager, Close), reopened, and decoded with extract.Font and reader.Reader; distinct = distinct (space, version, fonts, slots, steps) tuples in which at least one glyph is shown")
+	r.Rule("every case is one single-page document written with the library (fresh font instances, Layout, in the space dressed a per-glyph text rise and advance change and an initial skip put on the laid out sequence, builder.TextShowGlyphs -> Encode, ResourceManager, Close), reopened, and decoded with extract.Font and reader.Reader; distinct = distinct (space, version, fonts, slots, steps) tuples in which at least one glyph is shown")
 	r.Assume(
 		"reference = the (glyph id, text) pairs handed to the builder for which Encode succeeds; widths from GetGeometry().Widths",
 		"width tolerance 0.0005 em (width arrays store 1/1000 em)",
 		"texts are non-empty (an empty text hint is not a text); .notdef glyphs are shown like any other glyph",
 		"errors of Close that are version errors or the 256-code overflow are rejections of the input, not failures",
+		"dressed sequences: Glyph.Rise, Glyph.Advance and GlyphSeq.Skip decide where the glyphs go, not which codes are shown: the strings of all Tj/TJ operators of the text object, in order and through the TJ arrays, must be the codes of the glyphs in order; the numbers in the TJ arrays and the Ts operands are not judged (the statement is silent on positions)",
 	)
 
 	kindsL, goL, stdL, extraL := allFonts()
@@ -936,6 +960,11 @@ func Run(tier string) int {
 			add(c)
 		}
 	}
+
+	// (e) dressed glyph sequences (dressed.go). They come first in the list
+	// so that a run cut short by the deadline on a loaded machine has still
+	// executed them.
+	r.Dim("space_dressed", dressedCases(r, kindsL, add))
 
 	s1 := stringsUpTo(repertoire, 1)
 	s2 := stringsUpTo(repertoire, 2)
@@ -1158,6 +1187,7 @@ func Run(tier string) int {
 		}
 	})
 
+	r.Dim("dressed_operator_patterns_observed", cl.patternDim())
 	cl.flush()
 	return r.Finish()
 }
